@@ -20,7 +20,19 @@ enum Op {
     Message { path: String },
     /// batch_json with n entries
     Batch { paths: Vec<String> },
+    /// the remaining public entry points that put a request on the wire, by name (twins with a timeout, typed JSON /
+    /// BEVE helpers, registry helpers); `noreply` = the peer will not answer (the call times out, the client is used on)
+    Api { api: &'static str, path: String, value: Value },
+    /// AsyncClient::forward_message(_with_timeout): an arbitrary caller-built message, sent as it is
+    Forward { frame: RawFrame, with_timeout: bool },
 }
+
+const APIS: &[&str] = &[
+    "call_json_with_timeout", "call_typed_json", "call_typed_json_with_timeout", "call_typed_beve", "call_typed_beve_with_timeout",
+    "call_message_with_timeout", "call_with_formats_and_timeout", "notify_typed_json", "notify_typed_beve",
+    "registry_read", "registry_read_typed", "registry_read_with_timeout", "registry_read_typed_with_timeout",
+    "registry_write_json", "registry_call_json", "batch_json_with_timeout", "noreply",
+];
 
 fn gen_path(r: &mut Rng) -> String {
     let pool = ["/a", "/echo", "", "/", "/a/b/c", "/x~0y~1z", "/é/ü", "/a b", "/0", "/very/long/path/with/many/segments/0/1/2/3/4/5/6/7/8/9/10/11/12/13/14/15/16/17"];
@@ -28,12 +40,39 @@ fn gen_path(r: &mut Rng) -> String {
     if r.chance(1, 4) {
         p.push_str(&"q".repeat(r.below(70) as usize));
     }
+    if r.chance(1, 40) {
+        p.push_str(&"/seg".repeat(17_000));
+    }
     p
 }
 
-fn gen_ops(r: &mut Rng, n: usize) -> Vec<Op> {
+fn gen_value(r: &mut Rng) -> Value {
+    match r.below(6) {
+        0 => Value::Null,
+        1 => json!(r.next() as i64),
+        2 => json!(""),
+        3 => json!("naïve — ünïcödé ✓"),
+        4 => json!({"k": r.below(1000), "nested": {"l": [1, 2.5, null, true], "s": "x".repeat(r.below(300) as usize)}}),
+        _ => json!([]),
+    }
+}
+
+fn gen_ops(r: &mut Rng, n: usize, kind: &str) -> Vec<Op> {
     (0..n)
-        .map(|_| match r.below(8) {
+        .map(|_| match r.below(if kind == "async" { 14 } else { 13 }) {
+            8 | 9 | 10 | 11 | 12 => {
+                let api = *r.pick(APIS);
+                Op::Api { api, path: if api == "noreply" { "/__noreply".to_string() } else { gen_path(r) }, value: gen_value(r) }
+            }
+            13 => {
+                // any consistent message: reserved bits, unknown format codes, error code, any version byte
+                let q = gen_path(r).into_bytes();
+                let b = { let l = *r.pick(&[0usize, 1, 48, 300, 5000]); r.bytes(l) };
+                let mut f = RawFrame::request((1u64 << 40) + r.below(1 << 20), r.chance(1, 3), r.boundary(16) as u16, &q, r.boundary(16) as u16, &b);
+                f.h.reserved = r.boundary(32) as u32;
+                f.h.ec = r.boundary(32) as u32;
+                Op::Forward { frame: f, with_timeout: r.chance(1, 2) }
+            }
             0 | 1 | 2 => Op::Formats {
                 notify: r.chance(1, 3),
                 path: gen_path(r),
@@ -72,7 +111,7 @@ fn tcp_peer() -> (std::net::SocketAddr, mpsc::Receiver<Vec<u8>>) {
                     while let Some((f, n)) = RawFrame::parse_prefix(&buf) {
                         let raw: Vec<u8> = buf.drain(..n).collect();
                         let _ = tx.send(raw);
-                        if f.h.notify != 1 {
+                        if f.h.notify != 1 && f.query != b"/__noreply" {
                             let _ = s.write_all(&reply_for(&f.h));
                         }
                     }
@@ -104,7 +143,7 @@ fn ws_peer(rt: &tokio::runtime::Runtime) -> (std::net::SocketAddr, mpsc::Receive
                             let h = RawHeader::parse(&b);
                             let _ = tx.send(b.clone());
                             if let Some(h) = h {
-                                if h.notify != 1 {
+                                if h.notify != 1 && !b[48.min(b.len())..].starts_with(b"/__noreply") {
                                     let _ = ws.send(WsMsg::Binary(reply_for(&h))).await;
                                 }
                             }
@@ -125,23 +164,73 @@ struct Expect {
     bf: u16,
     query: Vec<u8>,
     body: Vec<u8>,
+    /// forward_message: the caller's message as it is (every header field)
+    exact: Option<RawFrame>,
 }
 
 fn expectations(op: &Op) -> Vec<Expect> {
     match op {
-        Op::Formats { notify, path, qf, body, bf } => vec![Expect { notify: *notify, qf: *qf, bf: *bf, query: path.as_bytes().to_vec(), body: body.clone().unwrap_or_default() }],
-        Op::Json { notify, path, value } => vec![Expect { notify: *notify, qf: 1, bf: 2, query: path.as_bytes().to_vec(), body: serde_json::to_vec(value).unwrap() }],
+        Op::Formats { notify, path, qf, body, bf } => vec![Expect { notify: *notify, qf: *qf, bf: *bf, query: path.as_bytes().to_vec(), body: body.clone().unwrap_or_default(), exact: None }],
+        Op::Json { notify, path, value } => vec![Expect { notify: *notify, qf: 1, bf: 2, query: path.as_bytes().to_vec(), body: serde_json::to_vec(value).unwrap(), exact: None }],
         // call_message sends an empty body; the builder leaves the body format at its raw-binary default
-        Op::Message { path } => vec![Expect { notify: false, qf: 1, bf: 0, query: path.as_bytes().to_vec(), body: vec![] }],
-        Op::Batch { paths } => paths.iter().enumerate().map(|(i, p)| Expect { notify: false, qf: 1, bf: 2, query: p.as_bytes().to_vec(), body: serde_json::to_vec(&json!({"i": i})).unwrap() }).collect(),
+        Op::Message { path } => vec![Expect { notify: false, qf: 1, bf: 0, query: path.as_bytes().to_vec(), body: vec![], exact: None }],
+        Op::Batch { paths } => paths.iter().enumerate().map(|(i, p)| Expect { notify: false, qf: 1, bf: 2, query: p.as_bytes().to_vec(), body: serde_json::to_vec(&json!({"i": i})).unwrap(), exact: None }).collect(),
+        Op::Forward { frame, .. } => vec![Expect { notify: frame.h.notify == 1, qf: frame.h.query_format, bf: frame.h.body_format, query: frame.query.clone(), body: frame.body.clone(), exact: Some(frame.clone()) }],
+        Op::Api { api, path, value } => {
+            let q = path.as_bytes().to_vec();
+            let e = |notify: bool, bf: u16, body: Vec<u8>| Expect { notify, qf: 1, bf, query: q.clone(), body, exact: None };
+            match *api {
+                "call_typed_beve" | "call_typed_beve_with_timeout" => vec![e(false, 1, beve::to_vec(value).unwrap())],
+                "notify_typed_beve" => vec![e(true, 1, beve::to_vec(value).unwrap())],
+                "notify_typed_json" => vec![e(true, 2, serde_json::to_vec(value).unwrap())],
+                "call_message_with_timeout" | "registry_read" | "registry_read_typed" | "registry_read_with_timeout" | "registry_read_typed_with_timeout" => vec![e(false, 0, vec![])],
+                "call_with_formats_and_timeout" => vec![Expect { notify: false, qf: 65534, bf: 4095, query: q.clone(), body: serde_json::to_vec(value).unwrap(), exact: None }],
+                "batch_json_with_timeout" => (0..3).map(|i| Expect { notify: false, qf: 1, bf: 2, query: format!("{}/{}", path, i).into_bytes(), body: serde_json::to_vec(&json!({"i": i})).unwrap(), exact: None }).collect(),
+                _ => vec![e(false, 2, serde_json::to_vec(value).unwrap())],
+            }
+        }
     }
+}
+
+/// One entry point by name on any of the three clients (`$aw` is `.await` for the async ones).
+macro_rules! run_api {
+    ($c:expr, $api:expr, $path:expr, $value:expr, [$($aw:tt)*]) => {{
+        let c = $c;
+        let t = Duration::from_secs(8);
+        let (path, value): (&String, &Value) = ($path, $value);
+        let r: Result<(), repe::RepeError> = match $api {
+            "call_json_with_timeout" => c.call_json_with_timeout(path, value, t)$($aw)*.map(|_| ()),
+            "noreply" => c.call_json_with_timeout(path, value, Duration::from_millis(80))$($aw)*.map(|_| ()),
+            "call_typed_json" => { let r: Result<Value, _> = c.call_typed_json(path, value)$($aw)*; r.map(|_| ()) }
+            "call_typed_json_with_timeout" => { let r: Result<Value, _> = c.call_typed_json_with_timeout(path, value, t)$($aw)*; r.map(|_| ()) }
+            "call_typed_beve" => { let r: Result<Value, _> = c.call_typed_beve(path, value)$($aw)*; r.map(|_| ()) }
+            "call_typed_beve_with_timeout" => { let r: Result<Value, _> = c.call_typed_beve_with_timeout(path, value, t)$($aw)*; r.map(|_| ()) }
+            "call_message_with_timeout" => c.call_message_with_timeout(path, t)$($aw)*.map(|_| ()),
+            "call_with_formats_and_timeout" => { let b = serde_json::to_vec(value).unwrap(); c.call_with_formats_and_timeout(path, 65534, Some(&b[..]), 4095, t)$($aw)*.map(|_| ()) }
+            "notify_typed_json" => c.notify_typed_json(path, value)$($aw)*,
+            "notify_typed_beve" => c.notify_typed_beve(path, value)$($aw)*,
+            "registry_read" => c.registry_read(path)$($aw)*.map(|_| ()),
+            "registry_read_typed" => { let r: Result<Value, _> = c.registry_read_typed(path)$($aw)*; r.map(|_| ()) }
+            "registry_read_with_timeout" => c.registry_read_with_timeout(path, t)$($aw)*.map(|_| ()),
+            "registry_read_typed_with_timeout" => { let r: Result<Value, _> = c.registry_read_typed_with_timeout(path, t)$($aw)*; r.map(|_| ()) }
+            "registry_write_json" => c.registry_write_json(path, value)$($aw)*.map(|_| ()),
+            "registry_call_json" => c.registry_call_json(path, value)$($aw)*.map(|_| ()),
+            "batch_json_with_timeout" => {
+                let reqs: Vec<(String, Value)> = (0..3).map(|i| (format!("{}/{}", path, i), json!({"i": i}))).collect();
+                let rs = c.batch_json_with_timeout(reqs, t)$($aw)*;
+                if rs.iter().all(|r| r.is_ok()) { Ok(()) } else { Err(repe::RepeError::UnknownEnumValue(0)) }
+            }
+            other => panic!("unknown api {}", other),
+        };
+        r.map_err(|e| err_class(&e))
+    }};
 }
 
 fn main() {
     let args = Args::parse();
     quiet_panics();
     let mut out = Out::new(&args.out);
-    out.rule = "calls and notifies (custom format codes, JSON helpers, empty-body call_message, batches) with paths incl. empty, escapes, non-ASCII, long; bodies 0..70 KB; issued through the real blocking Client, AsyncClient and WebSocketClient to a recording peer; the captured raw frame is compared with the builder frame for the id the client chose. Distinct by op line; non-trivial = every captured frame".into();
+    out.rule = "calls and notifies (custom format codes, JSON helpers, empty-body call_message, batches, every `_with_timeout` twin, typed JSON/BEVE helpers, registry helpers, forward_message of arbitrary consistent messages, calls the peer never answers followed by more calls on the same client) with paths incl. empty, escapes, non-ASCII, long; bodies 0..70 KB; issued through the real blocking Client, AsyncClient and WebSocketClient to a recording peer; the captured raw frame is compared with the builder frame for the id the client chose. Distinct by op line; non-trivial = every captured frame".into();
     out.config("mode checks");
     let rt = tokio::runtime::Builder::new_multi_thread().worker_threads(3).enable_all().build().unwrap();
     let mut rng = Rng::new(args.seed);
@@ -149,7 +238,7 @@ fn main() {
     let mut idx = 0usize;
     let wait = Duration::from_secs(10);
     for client_kind in ["blocking", "async", "ws"] {
-        let ops = gen_ops(&mut rng, n_ops);
+        let ops = gen_ops(&mut rng, n_ops, client_kind);
         let (addr, rx) = if client_kind == "ws" { ws_peer(&rt) } else { tcp_peer() };
         // issue every op; collect captured frames afterwards in order of arrival per op
         let blocking = if client_kind == "blocking" { Some(Client::connect(addr).expect("connect")) } else { None };
@@ -157,6 +246,11 @@ fn main() {
         let wsc = if client_kind == "ws" { Some(rt.block_on(repe::websocket_client::WebSocketClient::connect(&format!("ws://{}/", addr))).expect("ws connect")) } else { None };
         for op in &ops {
             let exp = expectations(op);
+            out.count(&format!("emit.entry.{}.{}", client_kind, match op {
+                Op::Formats { notify: true, .. } => "notify_with_formats", Op::Formats { .. } => "call_with_formats",
+                Op::Json { notify: true, .. } => "notify_json", Op::Json { .. } => "call_json", Op::Message { .. } => "call_message",
+                Op::Batch { .. } => "batch_json", Op::Api { api, .. } => api, Op::Forward { with_timeout: true, .. } => "forward_message_with_timeout",
+                Op::Forward { .. } => "forward_message" }));
             let res: Result<(), String> = (|| {
                 match (op, client_kind) {
                     (Op::Formats { notify, path, qf, body, bf }, "blocking") => {
@@ -186,6 +280,16 @@ fn main() {
                     (Op::Message { path }, "blocking") => blocking.as_ref().unwrap().call_message(path).map(|_| ()).map_err(|e| err_class(&e)),
                     (Op::Message { path }, "async") => rt.block_on(asyncc.as_ref().unwrap().call_message(path)).map(|_| ()).map_err(|e| err_class(&e)),
                     (Op::Message { path }, _) => rt.block_on(wsc.as_ref().unwrap().call_message(path)).map(|_| ()).map_err(|e| err_class(&e)),
+                    (Op::Api { api, path, value }, "blocking") => run_api!(blocking.as_ref().unwrap(), *api, path, value, []),
+                    (Op::Api { api, path, value }, "async") => rt.block_on(async { run_api!(asyncc.as_ref().unwrap(), *api, path, value, [.await]) }),
+                    (Op::Api { api, path, value }, _) => rt.block_on(async { run_api!(wsc.as_ref().unwrap(), *api, path, value, [.await]) }),
+                    (Op::Forward { frame, with_timeout }, _) => {
+                        let c = asyncc.as_ref().expect("forward ops are generated for the async client only");
+                        let m = repe::Message { header: frame.h.to_repe(), query: frame.query.clone(), body: frame.body.clone() };
+                        rt.block_on(async {
+                            if *with_timeout { c.forward_message_with_timeout(&m, Duration::from_secs(8)).await } else { c.forward_message(&m).await }
+                        }).map(|_| ()).map_err(|e| err_class(&e))
+                    }
                     (Op::Batch { paths }, kind) => {
                         let reqs: Vec<(String, Value)> = paths.iter().enumerate().map(|(i, p)| (p.clone(), json!({"i": i}))).collect();
                         let rs = match kind {
@@ -219,13 +323,21 @@ fn main() {
                     Some(p) => {
                         let raw = frames.remove(p);
                         let id = RawHeader::parse(&raw).map(|h| h.id).unwrap_or(0);
-                        let opl = format!("build {} {} {} 0 {} {} {} {}", id_tag, id, e.notify as u8, e.qf, e.bf, hex(&e.query), hex(&e.body));
-                        let want = RawFrame { h: RawHeader { length: 48 + e.query.len() as u64 + e.body.len() as u64, spec: 0x1507, version: 1, notify: e.notify as u8, reserved: 0, id, query_length: e.query.len() as u64, body_length: e.body.len() as u64, query_format: e.qf, body_format: e.bf, ec: 0 }, query: e.query.clone(), body: e.body.clone() }.to_vec();
+                        let opl = match &e.exact {
+                            // an arbitrary caller-built message: the model's `msg` op predicts its frame from all eleven fields
+                            Some(x) => format!("msg {} {} {} {} 0", id_tag, x.h.fields(), hex(&x.query), hex(&x.body)),
+                            None => format!("build {} {} {} 0 {} {} {} {}", id_tag, id, e.notify as u8, e.qf, e.bf, hex(&e.query), hex(&e.body)),
+                        };
+                        let want = if let Some(x) = &e.exact { x.to_vec() } else { RawFrame { h: RawHeader { length: 48 + e.query.len() as u64 + e.body.len() as u64, spec: 0x1507, version: 1, notify: e.notify as u8, reserved: 0, id, query_length: e.query.len() as u64, body_length: e.body.len() as u64, query_format: e.qf, body_format: e.bf, ec: 0 }, query: e.query.clone(), body: e.body.clone() }.to_vec() };
                         if raw != want {
                             out.oracle_fail(&format!("emit.{}.frame_differs", client_kind), "the frame on the wire is not the canonical frame of the requested message", &[opl.clone()]);
                         }
                         out.count(&format!("emit.{}.{}", client_kind, if e.notify { "notify" } else { "call" }));
-                        out.case(&opl, &format!("{} {}", id_tag, hex(&raw)), true);
+                        if e.exact.is_some() {
+                            out.case(&opl, &format!("{} {} = = = = {}", id_tag, hex(&raw), hex(&raw)), true);
+                        } else {
+                            out.case(&opl, &format!("{} {}", id_tag, hex(&raw)), true);
+                        }
                     }
                 }
             }
